@@ -67,6 +67,34 @@ def half_plus_q_contexts(ctx, followers):
                       key=f"RX-LANG-CTX|half_plus_q_regex|{pre}|{nxt}")
 
 
+def _cut_length_from_match(ctx):
+    """process_half_plus_q_match removes the text that was MATCHED for the
+    rightmost quarter: a slice bound `-len(x)` (or `len(x)`) takes the length
+    of something read from the match object, not of the replacement."""
+    fi = ctx.repo.func('tract_preprocess:process_half_plus_q_match')
+    n = 0
+    for x in walk_local(fi.node):
+        if isinstance(x, ast.Subscript) and isinstance(x.slice, ast.Slice):
+            for bound in (x.slice.lower, x.slice.upper):
+                if bound is None:
+                    continue
+                lens = [c for c in ast.walk(bound) if isinstance(c, ast.Call) and dotted(c.func) == 'len' and c.args]
+                for c in lens:
+                    pv = flow.provenance(fi.node, c.args[0])
+                    from_match = any(p[0] == 'sub' and 'mo[' in p[1] for p in pv) or any(
+                        p[0] == 'call' and p[1].split('.')[-1] == 'group' for p in pv)
+                    consts = [p for p in pv if p[0] in ('global', 'const')]
+                    n += 1
+                    ctx.tri(from_match, not from_match and bool(consts), 'SLICE',
+                            'process_half_plus_q_match cuts off as many characters as the matched quarter has',
+                            f"len({norm(c.args[0])})",
+                            f"`{norm(x)[:60]}` measures `{norm(c.args[0])}`, which is the replacement / a constant, not the matched "
+                            f"text: a spelled-out or spaced quarter ('Northeast', 'N E') is cut at the wrong place",
+                            key="SLICE|process_half_plus_q_match|cut-length", where=common.loc(fi, x))
+    if n == 0:
+        ctx.undecided('SLICE', 'process_half_plus_q_match cuts off as many characters as the matched quarter has', 'no len()-based slice')
+
+
 def check(ctx):
     ctx.consult('tract/tract_preprocess.py', 'rgxlib/aliquots.py', 'tract/tract_parse.py')
     aq = 'rgxlib.aliquots'
@@ -96,6 +124,7 @@ def check(ctx):
     ctx.attempt(_chain_language)
     ctx.attempt(common.config_words, plss=('clean_qq',), tract=('clean_qq',))
     ctx.attempt(common.locate_by_text, ctx.repo.func('tract_preprocess:process_half_plus_q_match'))
+    ctx.attempt(_cut_length_from_match)
 
 
 def _tables(ctx, base):
